@@ -27,11 +27,23 @@ package redact
 //
 // Every law is run through several entry points (Sprintf, Fprintf, StringBuilder.Printf, Sprintfn+Printf,
 // a SafeFormatter calling Printf, the same under Safe() and a Formatter under Unsafe()).
+//
+// Deliberately outside the oracle (the statement does not decide them, or they are rendering fidelity = C04):
+// nil operands / nil interface elements / nil pointers, invalid verbs and EXTRA/MISSING operands, Safe() wrappers
+// of non-strings inside interface-typed slice/map slots (rendered through SafeMessage: "%x" of Safe(8) is 38),
+// Unsafe(Safe(x)) printed below an enclosing Safe() (same reason), SafeValue types in unexported struct fields
+// (the library cannot see the interface there and envelopes them).
+//
+// NOTE: this file reaches the unexported safe-type registry with go:linkname, only to delete the entries it added
+// itself (there is no public unregister). It must not be compiled together with another file that links the same
+// symbol under another name (the harness injects one property file at a time).
 
 import (
 	"bytes"
 	"encoding/json"
 	"fmt"
+	c05i "github.com/cockroachdb/redact/interfaces"
+	c05rfmt "github.com/cockroachdb/redact/internal/rfmt"
 	"hash/fnv"
 	"io"
 	"os"
@@ -41,8 +53,6 @@ import (
 	"strings"
 	"testing"
 	"unicode/utf8"
-	c05i "github.com/cockroachdb/redact/interfaces"
-	c05rfmt "github.com/cockroachdb/redact/internal/rfmt"
 	_ "unsafe" // go:linkname (restore of the process-global safe-type registry)
 )
 
@@ -119,6 +129,17 @@ func (c *c05Ctx) fail(call, out, why string) {
 	m, _ := json.Marshal(map[string]string{"property": "C05", "call": call, "output": fmt.Sprintf("%q", out), "why": why})
 	fmt.Printf("REPLAY-FAIL: %s\n", m)
 	c.t.Errorf("%s: %s: %q", call, why, out)
+}
+
+// run calls the library and turns a panic into a reported failure.
+func (c *c05Ctx) run(call string, f func() string) (out string, ok bool) {
+	defer func() {
+		if r := recover(); r != nil {
+			c.fail(call, "", fmt.Sprintf("the call panics instead of printing the operands: %v", r))
+			out, ok = "", false
+		}
+	}()
+	return f(), true
 }
 
 func (l *c05Law) count(call string, nontrivial bool) {
@@ -262,6 +283,19 @@ func (v c05Stringer) String() string { return "St9g" + strconv.Itoa(int(v)) }
 
 type c05Plain string
 
+// a plain fmt.Formatter: everything it writes to its fmt.State is unsafe
+type c05PlainFmtr string
+
+func (v c05PlainFmtr) Format(s fmt.State, verb rune) {
+	_, _ = io.WriteString(s, "PF")
+	_, _ = s.Write([]byte(string(verb) + ":" + string(v)))
+}
+
+// the obsolete way of declaring a message safe
+type c05Msgr string
+
+func (v c05Msgr) SafeMessage() string { return string(v) }
+
 // types for RegisterSafeType
 type c05RegInt int
 type c05RegStr string
@@ -295,6 +329,7 @@ var c05Verbs = map[string]string{
 	"bytes":    "vdsxXq",
 	"stringer": "vsqxd",
 	"struct":   "v",
+	"fmtr":     "vsd",
 }
 
 func c05BaseVals(tier int, hints map[string]interface{}) []c05Val {
@@ -362,6 +397,8 @@ func c05Forms(v c05Val, tier int) []c05Arg {
 			c05Arg{txt: "Unsafe(Safe(" + v.txt + "))", arg: Unsafe(Safe(v.v)), ref: v.v, whole: true, kind: v.kind},
 			c05Arg{txt: "reflect.ValueOf(" + v.txt + ")", arg: reflect.ValueOf(v.v), ref: reflect.ValueOf(v.v), kind: v.kind},
 			c05Arg{txt: "Safe(reflect.ValueOf(" + v.txt + "))", arg: Safe(reflect.ValueOf(v.v)), ref: reflect.ValueOf(v.v), safe: true, kind: v.kind},
+			c05Arg{txt: "reflect.ValueOf(Safe(" + v.txt + "))", arg: reflect.ValueOf(Safe(v.v)), ref: reflect.ValueOf(v.v), safe: true, kind: v.kind},
+			c05Arg{txt: "reflect.ValueOf(Unsafe(" + v.txt + "))", arg: reflect.ValueOf(Unsafe(v.v)), ref: reflect.ValueOf(v.v), whole: true, kind: v.kind},
 		)
 	}
 	return fs
@@ -384,6 +421,10 @@ func c05SafeTyped() []c05Arg {
 		mk("bytes", "interfaces.SafeBytes(\"hi\")", c05SafeBytes("hi")),
 		mk("string", "c05SafeStr(\"m\\nn\")", c05SafeStr("m\nn")),
 		mk("stringer", "c05SafeStringer(3)", c05SafeStringer(3)),
+		mk("int", "reflect.ValueOf(SafeInt(-42))", reflect.ValueOf(SafeInt(-42))),
+		mk("string", "reflect.ValueOf(SafeString(\"ab\"))", reflect.ValueOf(SafeString("ab"))),
+		// a SafeMessager is rendered as its message (a string) under the directive
+		{txt: fmt.Sprintf("c05Msgr(%q) /*SafeMessager*/", "sm"+vS+"\ng"), arg: c05Msgr("sm" + vS + "\ng"), ref: "sm" + vS + "\ng", safe: true, kind: "string"},
 	}
 }
 
@@ -394,6 +435,7 @@ func c05UnsafeTyped() []c05Arg {
 		{txt: "Unsafe(SafeString(\"ab\"))", arg: Unsafe(SafeString("ab")), ref: SafeString("ab"), whole: true, kind: "string"},
 		{txt: "c05Plain(\"pl\")", arg: c05Plain("pl"), ref: c05Plain("pl"), kind: "string"},
 		{txt: "c05Stringer(4)", arg: c05Stringer(4), ref: c05Stringer(4), kind: "stringer"},
+		{txt: "c05PlainFmtr(\"x\\ny\")", arg: c05PlainFmtr("x\ny"), ref: c05PlainFmtr("x\ny"), whole: true, kind: "fmtr"},
 		{txt: "c05RegInt(-7) /*not registered*/", arg: c05RegInt(-7), ref: c05RegInt(-7), kind: "int"},
 		{txt: "c05RegStr(\"rs\") /*not registered*/", arg: c05RegStr("rs"), ref: c05RegStr("rs"), kind: "string"},
 	}
@@ -404,13 +446,13 @@ func c05Directives(kind string, tier int) []string {
 	widths := []string{"", "7"}
 	precs := []string{"", ".2"}
 	if tier >= 1 {
-		flags = append(flags, "# ", "+#", "-+", "#0", " 0")
+		flags = append(flags, "# ", "+#", "-+", "#0", " 0", "+ ")
 		widths = []string{"", "1", "7"}
 		precs = []string{"", ".0", ".2"}
 	}
 	if tier >= 2 {
-		flags = append(flags, "+-#", "+ ", "-0", "+-# 0")
-		widths = append(widths, "12")
+		flags = append(flags, "+-#", "-0", "+-# 0")
+		widths = append(widths, "12", "70")
 		precs = append(precs, ".", ".5")
 	}
 	var ds []string
@@ -476,7 +518,8 @@ func c05LeafExpect(a c05Arg, d string, mode int) (full, del string) {
 
 var c05Lits = [][2]string{{"", ""}, {"a=", ";"}, {vS + "l", "\n" + vE}}
 
-func (c *c05Ctx) leafGrid(la, lb *c05Law, args []c05Arg, tier int, entries []int) {
+// entries: entry points every case goes through; rot: further entry points, one per (operand, directive) in rotation.
+func (c *c05Ctx) leafGrid(la, lb *c05Law, args []c05Arg, tier int, entries []int, rot []int) {
 	n := 0
 	for _, a := range args {
 		for _, d := range c05Directives(a.kind, tier) {
@@ -488,9 +531,13 @@ func (c *c05Ctx) leafGrid(la, lb *c05Law, args []c05Arg, tier int, entries []int
 				lits = c05Lits[n%3 : n%3+1]
 			}
 			n++
+			ents := entries
+			if len(rot) > 0 {
+				ents = append(append([]int{}, entries...), rot[n%len(rot)])
+			}
 			for _, lit := range lits {
 				format := lit[0] + d + lit[1]
-				for _, ei := range entries {
+				for _, ei := range ents {
 					e := c05Entries[ei]
 					if e.mode == c05ModeSafe && strings.HasPrefix(a.txt, "Unsafe(Safe(") {
 						// below an enclosing Safe(), a Safe() wrapper is rendered through its SafeMessage
@@ -499,7 +546,10 @@ func (c *c05Ctx) leafGrid(la, lb *c05Law, args []c05Arg, tier int, entries []int
 					}
 					full, del := c05LeafExpect(a, d, e.mode)
 					call := e.call(format, ", "+a.txt)
-					out := e.run(format, []interface{}{a.arg})
+					out, ran := c.run(call, func() string { return e.run(format, []interface{}{a.arg}) })
+					if !ran {
+						continue
+					}
 					wantDel := c05Q(lit[0]) + c05Q(del) + c05Q(lit[1])
 					if e.mode == c05ModeUnsafe {
 						wantDel = c05LFs(lit[0] + full + lit[1])
@@ -580,6 +630,7 @@ func c05Leaves(tier int) []c05Leaf {
 		{"Safe(\"sv\")", Safe("sv"), "sv", true},
 		{"SafeString(\"ok\")", SafeString("ok"), SafeString("ok"), true},
 		{"\"k\\nw\"", "k\nw", "k\nw", false},
+		{"Unsafe(SafeInt(61616))", Unsafe(SafeInt(61616)), SafeInt(61616), false},
 	}
 	if tier >= 1 {
 		ls = append(ls,
@@ -588,8 +639,9 @@ func c05Leaves(tier int) []c05Leaf {
 			c05Leaf{"Safe(\"t\\nu\")", Safe("t\nu"), "t\nu", true},
 			c05Leaf{"c05SafeStr(\"m\")", c05SafeStr("m"), c05SafeStr("m"), true},
 			c05Leaf{"c05Plain(\"Pz4\")", c05Plain("Pz4"), c05Plain("Pz4"), false},
-			c05Leaf{"c05Stringer(6)", c05Stringer(6), c05Stringer(6), false},
-			c05Leaf{"Unsafe(SafeInt(61616))", Unsafe(SafeInt(61616)), SafeInt(61616), false},
+			c05Leaf{"c05Stringer(987)", c05Stringer(987), c05Stringer(987), false},
+			c05Leaf{"c05PlainFmtr(\"Fm2\")", c05PlainFmtr("Fm2"), c05PlainFmtr("Fm2"), false},
+			c05Leaf{"c05Msgr(\"mg\")", c05Msgr("mg"), "mg", true},
 		)
 	}
 	return ls
@@ -669,7 +721,7 @@ func c05Shapes(tier int) []c05Shape {
 
 var c05CompoundDirs = [][]string{
 	{"%v", "%+v", "%#v", "%7v", "%-7v", "%x", "%q"},
-	{"%v", "%+v", "%#v", "%7v", "%-7v", "%x", "%q", "%s", "%X", "%07v", "%+7v", "% x", "%.1v", "%9.2q", "%#x", "%#q", "%+q", "%d"},
+	{"%v", "%+v", "%#v", "%7v", "%-7v", "%x", "%q", "%s", "%X", "%07v", "%+7v", "% x", "%.2v", "%9.2q", "%#x", "%#q", "%+q", "%d"},
 }
 
 // c05Static: statically typed compounds; fmt gets the same value; unsafe leaves listed.
@@ -712,6 +764,9 @@ func (c *c05Ctx) compoundCase(l *c05Law, format, argsTxt string, args, refs []in
 	del, ok := c05Cut(full, parts)
 	if !ok {
 		l.unreliable++
+		if os.Getenv("C05_DEBUG") != "" {
+			fmt.Printf("UNRELIABLE %q %s full=%q parts=%q\n", format, argsTxt, full, parts)
+		}
 		return
 	}
 	for _, ei := range entries {
@@ -720,7 +775,10 @@ func (c *c05Ctx) compoundCase(l *c05Law, format, argsTxt string, args, refs []in
 		}
 		e := c05Entries[ei]
 		call := e.call(format, argsTxt)
-		out := e.run(format, args)
+		out, ran := c.run(call, func() string { return e.run(format, args) })
+		if !ran {
+			continue
+		}
 		wantDel := c05Q(del)
 		switch e.mode {
 		case c05ModeSafe:
@@ -741,7 +799,13 @@ func (c *c05Ctx) compounds(l *c05Law, tier int, entries []int) {
 	if tier >= 1 {
 		dirs = c05CompoundDirs[1]
 	}
+	allEntries := entries
 	for _, sh := range c05Shapes(tier) {
+		entries = allEntries
+		if tier < 2 && sh.n == 3 && len(entries) > 3 {
+			// quick tiers: the 3-leaf shapes go through Sprintf and the two override contexts only
+			entries = []int{allEntries[0], allEntries[len(allEntries)-2], allEntries[len(allEntries)-1]}
+		}
 		idx := make([]int, sh.n)
 		for {
 			argv := make([]interface{}, sh.n)
@@ -797,10 +861,11 @@ func (c *c05Ctx) compounds(l *c05Law, tier int, entries []int) {
 		}
 	}
 	// statically typed compounds
+	entries = allEntries
 	for _, sc := range c05Statics() {
 		ds := dirs
 		if strings.Contains(sc.txt, "only)") {
-			ds = []string{"%s", "%x", "%q", "%9s", "%-9q|", "% X"}
+			ds = []string{"%s", "%x", "%q", "%9s", "%-9q", "% X"}
 		}
 		for _, d := range ds {
 			var parts []string
@@ -911,7 +976,9 @@ func (c *c05Ctx) argLists(l *c05Law, tier int, entries []int) {
 				if ref := c05Q(fmt.Sprintf(format, refs...)); ref != wantFull {
 					c.t.Fatalf("harness: piecewise fmt text %q differs from fmt.Sprintf(%q, ...) = %q", wantFull, format, ref)
 				}
-				c.check(l, e.call(format, argsTxt), e.run(format, args), wantDel, wantFull, nsafe > 0 && nunsafe > 0 && e.mode == c05ModeMixed)
+				if out, ran := c.run(e.call(format, argsTxt), func() string { return e.run(format, args) }); ran {
+					c.check(l, e.call(format, argsTxt), out, wantDel, wantFull, nsafe > 0 && nunsafe > 0 && e.mode == c05ModeMixed)
+				}
 				if e.mode != c05ModeMixed {
 					c.canary(l, e.call(format, argsTxt))
 				}
@@ -1081,6 +1148,7 @@ func c05Ops(tier int) []c05Op {
 		uns("w.UnsafeString(\"us\")", func(w c05W) { w.UnsafeString("us") }, "us"),
 		uns("w.UnsafeString(\"u\\nv\")", func(w c05W) { w.UnsafeString("u\nv") }, "u\nv"),
 		uns("w.UnsafeByte('c')", func(w c05W) { w.UnsafeByte('c') }, "c"),
+		uns("fmt.Fprintf(w, \"%d.\", 77)", func(w c05W) { fmt.Fprintf(w, "%d.", 77) }, "77."),
 		{txt: "w.Printf(\"f=%d|%s;\", Safe(1), \"pf\")", run: func(w c05W) { w.Printf("f=%d|%s;", Safe(1), "pf") },
 			full: "f=1|pf;", del: "f=1|;", safe: true, uns: true},
 		{txt: "w.Print(\"pu\", Safe(\"ps\"), 3)", run: func(w c05W) { w.Print("pu", Safe("ps"), 3) },
@@ -1098,7 +1166,6 @@ func c05Ops(tier int) []c05Op {
 			uns("w.UnsafeBytes(\"ub\")", func(w c05W) { w.UnsafeBytes([]byte("ub")) }, "ub"),
 			uns("w.UnsafeRune('ü')", func(w c05W) { w.UnsafeRune('ü') }, "ü"),
 			uns(fmt.Sprintf("w.UnsafeString(%q)", mk), func(w c05W) { w.UnsafeString(mk) }, mk),
-			uns("fmt.Fprintf(w, \"%d.\", 77)", func(w c05W) { fmt.Fprintf(w, "%d.", 77) }, "77."),
 			c05Op{txt: "w.Print(Safe(obj{w.UnsafeString(\"iu\"); w.SafeString(\"is\")}), \"x\")", run: func(w c05W) { w.Print(Safe(inner), "x") },
 				full: "iuisx", del: "iuis", safe: true, uns: true},
 			c05Op{txt: "w.Printf(\"%5d|%-5s|\", SafeInt(4), \"q\")", run: func(w c05W) { w.Printf("%5d|%-5s|", SafeInt(4), "q") },
@@ -1111,9 +1178,9 @@ func c05Ops(tier int) []c05Op {
 }
 
 type c05ScriptCtx struct {
-	call func(script string) string
-	run  func(ops []c05Op) string
-	mode int
+	call     func(script string) string
+	run      func(ops []c05Op) string
+	mode     int
 	pre      string // text around the script in the output: before, after (envelopes deleted), after (stripped)
 	post     string
 	postFull string
@@ -1213,7 +1280,9 @@ func (c *c05Ctx) scripts(l *c05Law, tier int, maxLen int, withReg bool) {
 					wantDel = c05LFs(full)
 				}
 				call := x.call(strings.Join(txts, "; "))
-				c.check(l, call, x.run(script), x.pre+wantDel+x.post, x.pre+full+x.postFull, hasSafe && hasUnsafe)
+				if out, ran := c.run(call, func() string { return x.run(script) }); ran {
+					c.check(l, call, out, x.pre+wantDel+x.post, x.pre+full+x.postFull, hasSafe && hasUnsafe)
+				}
 				c.canary(l, call)
 			}
 		}
@@ -1265,7 +1334,7 @@ func (c *c05Ctx) registry(l *c05Law, tier int) {
 	before := len(c05SafeTypeRegistry)
 	dirs := []string{"%v", "%+v", "%#v", "%8v", "%x"}
 	if tier >= 1 {
-		dirs = append(dirs, "%-8v|", "%08v", "%q", "%X", "% x", "%+.3v")
+		dirs = append(dirs, "%-8v", "%08v", "%q", "%X", "% x", "%+.3v")
 	}
 	for set := 0; set < 1<<len(types); set++ {
 		var ts []reflect.Type
@@ -1396,7 +1465,7 @@ func (c *c05Ctx) registeredLeafGrid(la *c05Law, tier int, entries []int) {
 			{txt: "&c05RegStruct{7, \"b\\nb\"} /*registered*/", arg: &rt, ref: &rt, safe: true, kind: "struct"},
 			{txt: "reflect.ValueOf(c05RegInt(-7)) /*registered*/", arg: reflect.ValueOf(c05RegInt(-7)), ref: reflect.ValueOf(c05RegInt(-7)), safe: true, kind: "int"},
 		}
-		c.leafGrid(la, la, args, tier, entries)
+		c.leafGrid(la, la, args, tier, entries, nil)
 	})
 }
 
@@ -1407,7 +1476,7 @@ func c05Report(c *c05Ctx) {
 			bound += fmt.Sprintf("; %d generated cases dropped because the expected text could not be built unambiguously", l.unreliable)
 		}
 		m, _ := json.Marshal(map[string]interface{}{"property": "C05", "law": l.name, "cases": l.cases, "nontrivial": l.nontrivial,
-			"nontrivial_rule": l.rule, "bound": bound, "exhaustive": c.fails == 0})
+			"nontrivial_rule": l.rule, "bound": bound, "exhaustive": c.fails == 0 && l.unreliable == 0})
 		fmt.Printf("BOUNDED: %s\n", m)
 	}
 }
@@ -1422,7 +1491,7 @@ func TestVerifReplayC05(t *testing.T) {
 	lE := c.law("E", "", "")
 	// scripts first: a nested Printf/Print under an override is where a missing restore shows directly
 	c.scripts(lD, 0, 2, false)
-	c.leafGrid(lA, lB, c05Operands(0, hints), 0, []int{0, 4, 5, 6})
+	c.leafGrid(lA, lB, c05Operands(0, hints), 0, []int{0, 5, 6}, []int{1, 2, 3, 4})
 	c.registeredLeafGrid(lA, 0, []int{0})
 	c.compounds(lC, 0, []int{0, 3, 5, 6})
 	c.argLists(lC, 0, []int{0, 2, 5, 6})
@@ -1442,27 +1511,29 @@ func TestVerifBoundedC05(t *testing.T) {
 	c := &c05Ctx{t: t, max: 8}
 	hints := c05Hints()
 	tn := map[int]string{1: "quick", 2: "thorough"}[tier]
+	en := map[int]string{1: "entry points Sprintf, Safe(obj{Printf}), Unsafe(obj{Printf}) + one of Fprintf, StringBuilder.Printf, Sprintfn{Printf}, obj{Printf} in rotation",
+		2: "all 7 entry points"}[tier]
+	c3 := map[int]string{1: " (3-leaf shapes: 3 of the 7 entry points)", 2: ""}[tier]
 	lD := c.law("D: SafePrinter/SafeWriter scripts: safe emitters visible, unsafe emitters enveloped, Print/Printf classified per operand, in Sprintfn, StringBuilder, SafeFormatter objects (plain, Safe(), SafeValue, registered type, Unsafe(), in slices/structs, via pointer), plus a history canary after every case",
 		"script has a safe and an unsafe emitter",
 		fmt.Sprintf("tier %s: all scripts of 1..%d operations over %d operations x %d contexts", tn, tier+1, len(c05Ops(tier)), len(c05ScriptCtxs(tier))+1))
 	lA := c.law("A: declared-safe top-level operand (Safe(x), Safe(Unsafe(x)), Safe(reflect.Value), SafeValue types, registered types): text equals fmt's, no envelope",
 		"directive carries a flag, width or precision",
-		fmt.Sprintf("tier %s: every directive %%[flags][width][.prec]verb over the verbs valid for the operand kind (%d directives for ints) x operands x %d entry points", tn, len(c05Directives("int", tier)), len(c05Entries)))
+		fmt.Sprintf("tier %s: every directive %%[flags][width][.prec]verb over the verbs valid for the operand kind (%d directives for ints) x %d operand forms (safe and unsafe) x %s", tn, len(c05Directives("int", tier)), len(c05Operands(tier, hints))+5, en))
 	lB := c.law("B: unsafe top-level operand (plain, Unsafe(x), Unsafe(Safe(x)), reflect.Value, unregistered types) between literals: envelopes-deleted text is the literals (+ line feeds and punctuation), stripped text equals fmt's",
 		"non-empty rendering and non-empty literal before it",
-		fmt.Sprintf("tier %s: the same directive grid x operands x %d entry points", tn, len(c05Entries)))
+		fmt.Sprintf("tier %s: the same directive grid x operand forms x %s, literal pairs in rotation (all 3 in tier thorough)", tn, en))
 	lC := c.law("C: argument lists (Sprintf with 2.."+strconv.Itoa(tier+1)+" directives, Sprint, Sprintln, Print, indexes, star widths) and compound values (interface slices/arrays/maps/struct fields, typed structs, nesting, pointers, reflect.Value) mixing safe and unsafe leaves: envelopes-deleted text equals fmt's text with the unsafe leaves cut out",
 		"at least one safe and one unsafe leaf, no enclosing Safe()/Unsafe()",
-		fmt.Sprintf("tier %s: %d shapes x all leaf tuples over %d leaves x %d directives; %d static compounds; all tuples of 2..%d of %d (operand,directive) items", tn, len(c05Shapes(tier)), len(c05Leaves(tier)), len(c05CompoundDirs[1]), len(c05Statics()), tier+1, len(c05Items(tier))))
+		fmt.Sprintf("tier %s: %d shapes x all leaf tuples over %d leaves x %d directives x 7 entry points%s; %d static compounds; all tuples of 2..%d of %d (operand,directive) items x 7 entry points; all pairs through Sprint/Sprintln/Print; 10 index/star formats", tn, len(c05Shapes(tier)), len(c05Leaves(tier)), len(c05CompoundDirs[1]), c3, len(c05Statics()), tier+1, len(c05Items(tier))))
 	lE := c.law("E: every subset of {c05RegInt, c05RegStr, c05RegStruct, int32} registered with RegisterSafeType: values of registered types are visible at top level, behind reflect.Value, pointers and at depth; the others enveloped; Unsafe()/Safe() still win; registry restored",
 		"all", "16 subsets x 13 operands x directives x {plain, Unsafe(), Safe()}")
 	c.scripts(lD, tier, tier+1, true)
 	args := c05Operands(tier, hints)
 	if tier == 1 {
-		c.leafGrid(lA, lB, args, tier, []int{0, 3, 5, 6})
-		c.leafGrid(lA, lB, args[:len(args)/3], 0, []int{1, 2, 4})
+		c.leafGrid(lA, lB, args, tier, []int{0, 5, 6}, []int{1, 2, 3, 4})
 	} else {
-		c.leafGrid(lA, lB, args, tier, c05AllEntries())
+		c.leafGrid(lA, lB, args, tier, c05AllEntries(), nil)
 	}
 	c.registeredLeafGrid(lA, tier, c05AllEntries())
 	c.compounds(lC, tier, c05AllEntries())
